@@ -55,8 +55,10 @@ Definition apps_eq (m o : ostate) : bool :=
 Definition part_eq (m o : ostate) : bool :=
   ores_eqz (s_total m) (s_total o) && Z.eqb (s_nallocs m) (s_nallocs o).
 
-Definition model_step_check (deny : list (N * N)) (pre : ostate) (st : ostep) : option (list N) :=
-  match m_step2 deny pre st with
+(* [F] is the step function of the operational model that is validated (m_step2, or a later extension) *)
+Definition stepfn := list (N * N) -> ostate -> ostep -> option ostate.
+Definition model_step_check_with (F : stepfn) (deny : list (N * N)) (pre : ostate) (st : ostep) : option (list N) :=
+  match F deny pre st with
   | None => None
   | Some m =>
       let o := st_obs st in
@@ -67,27 +69,30 @@ Definition model_step_check (deny : list (N * N)) (pre : ostate) (st : ostep) : 
             (if part_eq m o then [] else [393]))
   end.
 
-Fixpoint msteps (deny : list (N * N)) (pre : ostate) (i : N) (l : list ostep) : list (N * N) * (N * N) :=
+Definition model_step_check := model_step_check_with m_step2.
+
+Fixpoint msteps_with (F : stepfn) (deny : list (N * N)) (pre : ostate) (i : N) (l : list ostep) : list (N * N) * (N * N) :=
   match l with
   | [] => ([], (0, 0))
   | st :: t =>
-      let '(rest, (cov, tot)) := msteps deny (st_obs st) (i + 1) t in
-      match model_step_check deny pre st with
+      let '(rest, (cov, tot)) := msteps_with F deny (st_obs st) (i + 1) t in
+      match model_step_check_with F deny pre st with
       | None => (rest, (cov, tot + 1))
       | Some ks => (map (fun k => (i, k)) ks ++ rest, (cov + 1, tot + 1))
       end
   end.
 
-Fixpoint mall (i : N) (cs : list ohistory) : list (N * N) * (N * N) :=
+Fixpoint mall_with (F : stepfn) (i : N) (cs : list ohistory) : list (N * N) * (N * N) :=
   match cs with
   | [] => ([], (0, 0))
   | h :: t =>
-      let '(r1, (c1, t1)) := msteps (h_preddeny h) (h_init h) 0 (h_steps h) in
-      let '(r2, (c2, t2)) := mall (i + 1) t in
+      let '(r1, (c1, t1)) := msteps_with F (h_preddeny h) (h_init h) 0 (h_steps h) in
+      let '(r2, (c2, t2)) := mall_with F (i + 1) t in
       (map (fun p => (i * 1000 + fst p, snd p)) r1 ++ r2, (c1 + c2, t1 + t2))
   end.
 
-Definition model_check_all (cs : list ohistory) : list (N * N) :=
-  let '(r, (c, t)) := mall 0 cs in r ++ [(c, 100000001); (t, 100000002)].
+Definition model_check_all_with (F : stepfn) (cs : list ohistory) : list (N * N) :=
+  let '(r, (c, t)) := mall_with F 0 cs in r ++ [(c, 100000001); (t, 100000002)].
+Definition model_check_all (cs : list ohistory) : list (N * N) := model_check_all_with m_step2 cs.
 Definition only_kinds (lo hi : N) (l : list (N * N)) : list (N * N) :=
   filter (fun p => ((lo <=? snd p) && (snd p <=? hi)) || (100000000 <? snd p)) l.
